@@ -65,6 +65,12 @@ CHECKS = {
         text="For every node of every compiled program whose schema flags a column unique, the solver searches all databases (<= 2/3 rows per table, base constraints assumed) for two output rows with the same non-NULL value; the functions through which the flag is propagated (is_bijection) are checked for injectivity on their whole 64-bit domain when their kernel is translatable.",
         note="Trusted: lib/symrel.py semantics (SQLite-confirmed reports only); MIR translation. Known findings: CAST AS INTEGER / CAST AS FLOAT are not one-to-one.",
         design="3 C14"),
+    "C05": dict(
+        level="translation_validation", engine="S (SymRel) + SQLite replay",
+        technique="SMT: the relation returned by the real rewrite_as_privacy_unit_preserving is executed symbolically on a database D and on D restricted to a symbolic unit u (ownership through the declared foreign-key paths); NULL ids/weights and bag difference of the unit's rows are decided for all databases of <= K rows; SQLite replay on D and D|u",
+        text="For ~24 query shapes (maps, filters, inner/outer joins of tracked x tracked and tracked x public relations in both orders, per-unit reduces, unions, LIMIT) x privacy-unit definitions (own column, 1- and 2-step foreign-key paths, hashed) x strategies, the solver searches every database of <= 2 (thorough: 3) rows per table and every unit for an output row with a NULL id/weight or for a difference between the unit's rows on D and the output on D|u.",
+        note="Trusted: lib/symrel.py semantics; independent ownership computation (referred ids are primary keys); SQLite-confirmed reports only. Known findings: NULL id/weight on outer-join padded rows; LIMIT over tracked rows.",
+        design="3 C05"),
 }
 
 NOT_APPLICABLE = {
@@ -76,7 +82,6 @@ NOT_YET = {
     "C01": "engine S (SymRel) for this property not built yet",
     "C03": "not built yet",
     "C04": "not built yet",
-    "C05": "not built yet",
     "C08": "not built yet (stretch goal; two SQL front ends)",
     "C09": "not built yet",
 }
